@@ -5,7 +5,7 @@ import ast
 from typing import List, Optional, Tuple
 
 from ..canon import Cmp, Poly, to_cmp, to_poly
-from ..defuse import is_sym, key, norm_chains, show, strip_norm, sym
+from ..defuse import flatten_order, is_sym, key, norm_chains, show, strip_norm, sym
 from ..engine import own_walk
 from ..model import AnalysisInconclusive
 from . import labware_loop as LL
@@ -177,12 +177,7 @@ def check_sequence_normalisation(ctx, rule: str, fv, term: ast.AST, construct: s
             problems.append("not flattened at all (2-D arguments would be iterated row-wise / as rows)")
         for n, c in fl:
             any_flatten = True
-            order = None
-            if c.args and isinstance(c.args[0], ast.Constant):
-                order = c.args[0].value
-            for kw in c.keywords:
-                if kw.arg == "order" and isinstance(kw.value, ast.Constant):
-                    order = kw.value.value
+            order = flatten_order(n, c)
             if order != "F":
                 problems.append(f"`{show(c)[:70]}` flattens in {'row-major (default)' if order is None else repr(order)} order instead of column-major 'F'")
     extra = [t for t in seq_transformers(term)]
